@@ -134,8 +134,9 @@ impl Sim {
                 if let Some(k) = kind {
                     if !s_kind_independent(k) {
                         // dependent events are buffered and leave only behind the replication of a tick
-                        // (the changes made since the previous tick travel first)
-                        if !self.last_frame_ticked && self.server_frames_since_start > 1 {
+                        // (the changes made since the previous tick travel first); the app's very first frame
+                        // replicates whatever its tick is
+                        if !self.last_frame_ticked && self.frame_no > 1 {
                             let f = self.frame_no;
                             self.viol(&["C04"], format!("dependent event {k} for client{ci} left the server in frame {f}, which did not replicate a tick: it overtakes the replication of whatever changed since the last tick"));
                         }
